@@ -195,7 +195,7 @@ def check(s):
         bufn = r[2][3]
         fb = fields(bufn)
         s.ob("C05.5", coni, isinstance(bufn, tuple) and bufn[0] == "record" and bufn[1].endswith("ReplayBuffer")
-             and fb.get("size") == ("param", "size"), "the buffer is a ReplayBuffer of the requested size",
+             and fb.get("size", fb.get("arg:size")) == ("param", "size"), "the buffer is a ReplayBuffer of the requested size",
              s.loc("AbstractOffPolicyStepState", "initial"), key="initial-buffer", detail=show(bufn, maxlen=200))
     # C05.5 what add() does with these arguments: the buffer stores each argument unchanged in the like-named field of one slot
     # (a buffer that rewrites `done` or shifts a flag to another slot makes the stored transition differ from what happened)
